@@ -489,7 +489,7 @@ pub fn run_one(cfg : &Config, seed : u64, k : u64, stats : &mut Stats) -> Vec<Fo
                             let mut c = replay_case.clone();
                             set_sched(&mut c.ops[victim], rsched.clone());
                             let alt = SchedSpec::record(inv.res.record.clone());
-                            if !found.iter().any(|f : &Found| f.sig == sig)
+                            if !found.iter().any(|f : &Found| f.sig == sig) && stats.reported.insert(sig.clone())
                             {
                                 let (small, alt2) = minimize_pair(&c, &alt, &sig);
                                 let d = pair_run(&small, &alt2).map(|(_, d)| d).unwrap_or(detail);
@@ -558,7 +558,7 @@ pub fn run_one(cfg : &Config, seed : u64, k : u64, stats : &mut Stats) -> Vec<Fo
     let mut seen = BTreeSet::new();
     for (v, c) in raw
     {
-        if v.prop != prop || !seen.insert(v.sig.clone()) { continue; }
+        if v.prop != prop || !seen.insert(v.sig.clone()) || !stats.reported.insert(v.sig.clone()) { continue; }
         let explicit = explicit_schedules(&c);
         let base = if run_case(prop, &explicit, None).iter().any(|x| x.sig == v.sig) { explicit } else { c.clone() };
         if !run_case(prop, &base, None).iter().any(|x| x.sig == v.sig)
